@@ -286,7 +286,7 @@ def gen_rg_circuit(
     if sp == "tucker":
         # keep units**arity small: the product of two such circuits squares it again
         ns = ni = rng.randint(1, 2)
-    nc = rng.choice([1, 1, 1, 2]) if allow_classes else 1
+    nc = rng.choice([1, 1, 1, 2, 3]) if allow_classes else 1
     return fix_units({
         "kind": "rg",
         "rg": rg,
